@@ -58,10 +58,11 @@ def strategy(tier):
     maxlen = 30 if tier == "quick" else 80
     op = st.tuples(st.sampled_from(OPS_W), st.integers(0, 11), st.integers(0, 11), st.integers(0, 47))
     return st.builds(
-        lambda nv, nuni, ops: {"nv": nv, "nuni": nuni, "ops": [list(o) for o in ops]},
+        lambda nv, nuni, ops, vcls: {"nv": nv, "nuni": nuni, "vcls": vcls, "ops": [list(o) for o in ops]},
         st.integers(2, 5),
         st.integers(0, 1),
         st.lists(op, max_size=maxlen),
+        st.one_of(st.none(), st.lists(st.integers(0, 3), min_size=1, max_size=4)),
     )
 
 
@@ -105,10 +106,13 @@ def enumerate_cases(tier, shard=0, nshards=1):
         for k in range(1, depth + 1):
             for seq in sharded(itertools.product(alpha, repeat=k), shard, nshards):
                 yield {"nv": 2, "nuni": 0, "ops": [list(o) for o in seq]}
+                if k < depth:
+                    # same history over vertices whose truth value is False (__len__ == 0 / __bool__ False)
+                    yield {"nv": 2, "nuni": 0, "vcls": [3, 2], "ops": [list(o) for o in seq]}
 
-    n = sum(len(alpha) ** k for k in range(1, depth + 1))
+    n = sum(len(alpha) ** k for k in range(1, depth + 1)) + sum(len(alpha) ** k for k in range(1, depth))
     return gen(), (
-        f"all {n} histories of 1..{depth} calls from a {len(alpha)}-op alphabet (edge constructors of "
+        f"all {n} histories (those of < {depth} calls are run a second time over falsy Vertex subclasses) of 1..{depth} calls from a {len(alpha)}-op alphabet (edge constructors of "
         f"DirectedEdge/UnDirectedEdge with ends in {{a,b,None}}^2, v1=/v2=, link_directed(dontdup), unlink, "
         f"add_to_link, remove_from_link, add_vertex, unlink_from, Vertex(links=)) over 2 vertices"
     )
@@ -143,8 +147,10 @@ def _invariant(w, where):
 
 
 def check_case(case):
-    w = World(case["nv"], case.get("nuni", 0))
+    w = World(case["nv"], case.get("nuni", 0), case.get("vcls"))
     classes = set()
+    if any(not bool(v) for v in w.vs):
+        classes.add("falsy-vertex-in-pool")
     changing = 0
     alias = False
     raised = 0
